@@ -62,7 +62,13 @@ JudgeOk(r) ==
                             /\ \A b \in 1..B : \A p \in 1..r.mask.cols : r.mask.v[(b - 1) * r.mask.cols + p] = (p <= r.coo.gl[b])>>,
           <<"padded_ids_are_values_then_padding", PadOk(r.tensor.rows, r.tensor.cols, r.tensor.ids, r.tensor.in_ids, r.pad_id)>>,
           <<"padded_labels_are_values_then_padding", PadOk(r.tensor.lrows, r.tensor.lcols, r.tensor.labels, r.tensor.in_labels, 0)>>,
-          <<"true_lengths_reported", r.tensor.lens = [b \in 1..Len(r.tensor.in_ids) |-> Len(r.tensor.in_ids[b])]>>
+          <<"true_lengths_reported", r.tensor.lens = [b \in 1..Len(r.tensor.in_ids) |-> Len(r.tensor.in_ids[b])]>>,
+          \* the matrices of the other task kinds (generation, classification, conditional generation: ids, target ids with a
+          \* pad id of their own, labels) over the same batch
+          <<"every_task_kind_pads_values_then_padding",
+              \A k \in 1..Len(r.others) : LET o == r.others[k] IN
+                  /\ PadOk(o.rows, o.cols, o.flat, o.items, o.pad)
+                  /\ (o.has_lens => o.lens = [b \in 1..Len(o.items) |-> Len(o.items[b])])>>
         >>
         bad == SelectSeq(cl, LAMBDA x : ~x[2])
     IN [why |-> [k \in 1..Len(bad) |-> bad[k][1]], drift |-> <<>>, skip |-> FALSE,
